@@ -4,7 +4,7 @@ mixes over /sys/block membership, boundary counters) and statvfs results."""
 import itertools
 import types
 
-from vf.harness import use_world, outcome, freeze, sample
+from vf.harness import use_world, outcome, freeze, sample, guarded
 from vf.simk.world import World
 
 ID = "C09"
@@ -28,11 +28,27 @@ def mk_world(seed):
     return w
 
 
-def net_file(ifs):
+def net_file(ifs, glue=False):
+    """glue: the layout of kernels that print "%6s:%8lu ..." -- no blank between the colon and a wide first counter"""
     out = [NET_HDR]
     for name, cols in ifs:
-        out.append(b"%6s: " % name.encode() + b" ".join(b"%d" % c for c in cols) + b"\n")
+        out.append(b"%6s:" % name.encode() + (b"" if glue else b" ") + b" ".join(b"%d" % c for c in cols) + b"\n")
     return b"".join(out)
+
+
+def rec(v, fields):
+    """the named fields of a record psutil returned (or a description of whatever it returned instead)"""
+    try:
+        return {f: getattr(v, f) for f in fields}
+    except AttributeError:
+        return "not-a-record: %r" % (v,)
+
+
+def recs(v, fields):
+    try:
+        return {n: rec(x, fields) for n, x in v.items()}
+    except AttributeError:
+        return "not-a-dict: %r" % (v,)
 
 
 def disk_line(i, name, vals, layout):
@@ -66,13 +82,13 @@ def run_case(case, w):
     bad = []
     if k == "net":
         ifs = case[1]
-        w.set_file("/proc/net/dev", net_file(ifs))
+        w.set_file("/proc/net/dev", net_file(ifs, glue=len(case) > 2 and case[2]))
         exp = {name: {f: cols[NET_MAP[f]] for f in NET_FIELDS} for name, cols in ifs}
         got = outcome(psutil.net_io_counters, pernic=True, nowrap=False)
         if not ifs:
             if got != ("ok", {}):
                 bad.append(("net:empty-pernic", repr(got)))
-        elif got[0] != "ok" or {n: {f: getattr(v, f) for f in NET_FIELDS} for n, v in got[1].items()} != exp:
+        elif got[0] != "ok" or recs(got[1], NET_FIELDS) != exp:
             bad.append(("net:pernic", "got %r expected %r" % (freeze(got), exp)))
         got = outcome(psutil.net_io_counters, pernic=False, nowrap=False)
         if not ifs:
@@ -80,7 +96,7 @@ def run_case(case, w):
                 bad.append(("net:empty-total", repr(got)))
         else:
             tot = {f: sum(e[f] for e in exp.values()) for f in NET_FIELDS}
-            if got[0] != "ok" or {f: getattr(got[1], f) for f in NET_FIELDS} != tot:
+            if got[0] != "ok" or rec(got[1], NET_FIELDS) != tot:
                 bad.append(("net:total", "got %r expected %r" % (freeze(got), tot)))
     elif k == "disk":
         devs, layout, bval = case[1], case[2], case[3]
@@ -102,7 +118,7 @@ def run_case(case, w):
         if not devs:
             if got != ("ok", {}):
                 bad.append(("disk:empty-perdisk", repr(got)))
-        elif got[0] != "ok" or {n: {f: getattr(v, f) for f in DISK_FIELDS} for n, v in got[1].items()} != exp:
+        elif got[0] != "ok" or recs(got[1], DISK_FIELDS) != exp:
             bad.append(("disk:perdisk:layout%d" % layout, "got %r expected %r" % (freeze(got), exp)))
         got = outcome(psutil.disk_io_counters, perdisk=False, nowrap=False)
         if not whole:
@@ -110,7 +126,7 @@ def run_case(case, w):
                 bad.append(("disk:empty-total", "devices %r (no whole disk): %r" % (devs, freeze(got))))
         else:
             tot = {f: sum(exp[d][f] for d in whole) for f in DISK_FIELDS}
-            if got[0] != "ok" or {f: getattr(got[1], f) for f in DISK_FIELDS} != tot:
+            if got[0] != "ok" or rec(got[1], DISK_FIELDS) != tot:
                 bad.append(("disk:total", "devices %r whole %r: got %r expected %r" % (devs, whole, freeze(got), tot)))
     elif k == "disk-seq":
         # call 1: `name` is not in /sys/block (partition / not yet registered); call 2: it is a whole disk (and vice versa)
@@ -127,8 +143,46 @@ def run_case(case, w):
             ea, eb = disk_ref(0, vals_a, 20), disk_ref(1, vals_b, 20)
             tot = {f: ea[f] + (eb[f] if whole else 0) for f in DISK_FIELDS}
             got = outcome(psutil.disk_io_counters, perdisk=False, nowrap=False)
-            if got[0] != "ok" or {f: getattr(got[1], f) for f in DISK_FIELDS} != tot:
+            if got[0] != "ok" or rec(got[1], DISK_FIELDS) != tot:
                 bad.append(("disk:total:after-sysfs-change", "step %d (%s whole=%s): got %r expected %r" % (step, name, whole, freeze(got), tot)))
+    elif k == "net-seq":
+        # successive contents read through the DEFAULT forms (nowrap=True): counters only grow, interfaces come and go; with no
+        # wrap anywhere the answers are the plain kernel values / their sums at every step
+        psutil.net_io_counters.cache_clear()
+        for step, (names, pernic_first) in enumerate(case[1]):
+            ifs = [(nm, [PRIMES[j] * (NAMES.index(nm) + 1) * 100 + j + 1000 * step for j in range(16)]) for nm in names]
+            w.set_file("/proc/net/dev", net_file(ifs))
+            exp = {name: {f: cols[NET_MAP[f]] for f in NET_FIELDS} for name, cols in ifs}
+            tot = {f: sum(e[f] for e in exp.values()) for f in NET_FIELDS} if ifs else None
+            for form in ((True, False) if pernic_first else (False,)):
+                got = outcome(psutil.net_io_counters, pernic=form)
+                want = exp if form else tot
+                have = got[1] if got[0] != "ok" else (recs(got[1], NET_FIELDS) if form else (None if got[1] is None else rec(got[1], NET_FIELDS)))
+                if got[0] != "ok" or have != want:
+                    bad.append(("net:sequence:%s" % ("pernic" if form else "total"),
+                                "step %d of %r: got %r expected %r" % (step, case[1], freeze(got), want)))
+        psutil.net_io_counters.cache_clear()
+    elif k == "disk-useq":
+        # same for disk_io_counters(): whole disks appear / disappear between default-form calls
+        psutil.disk_io_counters.cache_clear()
+        for d in list(w.children.get("/sys/block", ())):
+            w.remove("/sys/block/" + d)
+        for nm in ("sda", "sdb", "sdc"):
+            w.mkdir("/sys/block/" + nm)
+        for step, names in enumerate(case[1]):
+            lines, exp = [], {}
+            for nm in names:
+                i = ("sda", "sdb", "sdc").index(nm)
+                vals = [PRIMES[j] * (i + 1) * 10 + j + 100 * step for j in range(11)]
+                lines.append(disk_line(i, nm, vals, 20))
+                exp[nm] = disk_ref(i, vals, 20)
+            w.set_file("/proc/diskstats", b"".join(lines))
+            tot = {f: sum(e[f] for e in exp.values()) for f in DISK_FIELDS} if names else None
+            got = outcome(psutil.disk_io_counters)
+            have = got[1] if got[0] != "ok" else (None if got[1] is None else rec(got[1], DISK_FIELDS))
+            if got[0] != "ok" or have != tot:
+                bad.append(("disk:sequence:total", "step %d of %r: got %r expected %r" % (step, case[1], freeze(got), tot)))
+        psutil.disk_io_counters.cache_clear()
     elif k == "usage":
         blocks, bfree, bavail, frsize, bsize = case[1:]
         w.statvfs_result = types.SimpleNamespace(f_blocks=blocks, f_bfree=bfree, f_bavail=bavail, f_frsize=frsize, f_bsize=bsize,
@@ -147,7 +201,7 @@ def worker(chunk):
     w = mk_world(seed)
     use_world(w)
     w.logging = False
-    return [run_case(c, w) for c in cases]
+    return [guarded(run_case, c, w) for c in cases]
 
 
 def build_cases(thorough):
@@ -162,6 +216,19 @@ def build_cases(thorough):
             cols = [PRIMES[j] * 100 + j for j in range(16)]
             cols[col] = v
             cases.append(("net", [("eth0", cols), ("lo", [1] * 16)]))
+            if col == 0:
+                cases.append(("net", [("eth0", cols), ("eth0:1", cols), ("lo", [1] * 16)], True))
+    sets = [(), ("lo",), ("lo", "eth0"), ("eth0",), ("lo", "eth0", "eth0:1")]
+    for a in sets:
+        for b in sets:
+            for c in (sets if thorough else sets[:3]):
+                for pf in (False, True):
+                    cases.append(("net-seq", [(a, pf), (b, False), (c, pf)]))
+    dsets = [(), ("sda",), ("sda", "sdb"), ("sdb",), ("sda", "sdb", "sdc")]
+    for a in dsets:
+        for b in dsets:
+            for c in (dsets if thorough else dsets[:3]):
+                cases.append(("disk-useq", [a, b, c]))
     names = list(DEVS)
     dmax = 5 if thorough else 2
     for layout in (14, 18, 20, 7, 15):
@@ -214,5 +281,9 @@ def replay(ctx, case):
     c = list(case)
     if c[0] == "net":
         c[1] = [(n, cols) for n, cols in c[1]]
-    bad = run_case(tuple(c), w)
+    if c[0] == "net-seq":
+        c[1] = [(tuple(n), pf) for n, pf in c[1]]
+    if c[0] == "disk-useq":
+        c[1] = [tuple(n) for n in c[1]]
+    bad = guarded(run_case, tuple(c), w)
     return {"violated": bool(bad), "viols": bad}
